@@ -27,7 +27,7 @@ type c12Input struct {
 // sample seconds per (side, a): chosen so that the three steps see different counts (including none)
 var c12Times = map[string][]int{
 	// over the steps 5,10,15,20 s (window 10 s) series appear, persist and *disappear* on both sides
-	"L1": {0, 1}, "L2": {0, 12, 13, 14}, "L3": {13},
+	"L1": {0, 1}, "L2": {0, 12, 13, 14}, "L3": {9, 13},
 	"R1": {1, 14}, "R2": {2}, "R3": {8, 9, 10},
 }
 
